@@ -143,7 +143,7 @@ PROPS = {
         assumptions=["callers on a current-thread runtime (Start = allocate id + enqueue atomically)", "histories below the wrap-around of the 31-bit id counter (beyond it: finding F20)"],
     ),
     "C13": dict(
-        groups=[("conn", 600, 40000)],
+        groups=[("conn", 600, 40000), ("pagedstop", 300, 30000)],
         exact_lanes=["msgid"],
         rule="scripts of 3-16 steps over the real driver (current-thread runtime, paused clock, in-memory transport): start single/direct-search/adapted-search/abandon/unbind operations on cloned handles with and without timeouts (0, 1, 1000, 5000 ms), server responses for live, finished and unknown ids (entries, references, intermediates, done, other ops) delivered in two writes, clock advances around the deadlines, next()/finish() calls, EOF / garbage / read error / write error / partial message / handle drop; observation after EVERY step (per-op status and delivered tokens, request log, id table, routing gauges, driver result). non-trivial = distinct script in which at least one operation completed. one script in four is driven to quiescence (every op answered, every stream finished); oracle: nothing reserved or routed at quiescence",
         trivial=[],
@@ -151,8 +151,8 @@ PROPS = {
         assumptions=["callers on a current-thread runtime (Start = allocate id + enqueue atomically)", "histories below the wrap-around of the 31-bit id counter (beyond it: finding F20)"],
     ),
     "C10": dict(
-        groups=[("stream", 2000, 150000), ("conn", 300, 20000)],
-        exact_lanes=["stream"],
+        groups=[("stream", 2000, 150000), ("conn", 300, 20000), ("pagedstop", 400, 30000)],
+        exact_lanes=["stream", "paged"],
         rule="server scripts of 0-7 items (entries, references with 1-2 URIs, intermediate responses) ending with a SearchResultDone (rc 0/4/10/32/53, 0-2 referral URIs, 0-2 controls), all delivered before the first call, x call sequences of 0-17 next()/finish()/state() calls in any order including past the end, on direct streams, EntriesOnly-adapted streams and Ldap::search(); plus connection scripts where items arrive between calls. non-trivial = distinct case with at least one call",
         trivial=[],
         trusted=["modelled not verified: the adapter chain as structural recursion over [EntriesOnly]; async_trait dispatch; tokio mpsc as a list + closed flag"],
